@@ -310,7 +310,7 @@ theorem inv_setHead {U : Map Blk} (W : World U) {s : St} (h : Inv U s) (n : Nat)
     (hst : ∀ i, s.canon n = some i → s.hasState i = true) : Inv U (setHead s n).st := by
   obtain ⟨hb, C, h⟩ := h
   have hid := h.headId W
-  unfold setHead
+  unfold setHead pickHead pickFast
   rw [h.hheadEq, h.fheadEq, h.headStored]
   simp only
   by_cases hn : hb.number ≤ n
